@@ -82,7 +82,14 @@ func compObjs(
 		return object.BuiltInFalse
 	}
 
-	for sym, pair1 := range *o1.Pairs {
+	// NOTE: refer Keys to fix order of comparison
+	syms := append(append([]object.SymHash{}, *o1.Keys...), *o1.PrivateKeys...)
+	for _, sym := range syms {
+		pair1, ok := (*o1.Pairs)[sym]
+		if !ok {
+			continue
+		}
+
 		pair2, ok := (*o2.Pairs)[sym]
 		if !ok {
 			return object.BuiltInFalse
